@@ -344,3 +344,19 @@ func genC20All(t *rapid.T) C20Case {
 }
 
 func TestC20AllOrders(t *testing.T) { ReplayOrRapid(t, NewRun(t, "C20"), checkC20All, genC20All) }
+
+// FuzzC20 lets the coverage-guided fuzzer steer rapid's generator (rapid.MakeFuzz): the same cases and the same oracle
+// as TestC20, searched by coverage instead of at random (thorough tier).
+func FuzzC20(f *testing.F) {
+	r := NewRun(f, "C20")
+	curRun = r
+	f.Fuzz(rapid.MakeFuzz(func(t *rapid.T) {
+		c := genC20(t)
+		nt, v := checkC20(c)
+		if v != nil && !r.Known(v) {
+			r.Fail(c, v)
+			t.Fatalf("VIOLATION %s", v)
+		}
+		r.Count(nt, c, nil)
+	}))
+}
